@@ -3,6 +3,7 @@ import Mieru.Proofs.CloseAccept
 import Mieru.Proofs.StreamPrefix
 import Mieru.Proofs.CloseWriter
 import Mieru.Gen.Facts
+import Mieru.Gen.CloseFacts
 /-!
 # C03 — graceful close never turns a partial transfer into a clean end-of-stream
 
@@ -409,6 +410,57 @@ theorem close_path_structure :
       ["s.outputHasErr.Load", "time.Sleep", "s.oLock.Lock", "s.sendQueue.DeleteMin", "s.oLock.Unlock", "s.output"] ∧
     (Gen.Facts.selects.filter (fun x => x.1 == "Session.Read")).map (fun x => x.2.2.2) =
       [["<-s.closedChan", "<-s.inputErr", "<-s.recvQueue.chanNotEmptyEvent", "<-timeC"]] := by decide
+
+/-- Lock-scope tie (regenerated by abstract interpretation of the statement trees of session.go on
+    every run — control flow, not source order): in `runOutputOnceStream` the dequeue AND the network
+    write happen with `oLock` held, and the lock is released only on the two exits of the drain loop
+    (queue empty; output failed, before `closeWithError`) — this is `WEnv.drainLocked` of the writer
+    model, without which `tcp_lock_scope_counterexample` applies; in `closeWithError` the close request
+    is inserted under the lock, the bounded wait runs without it, the direct write takes it again, and
+    both `DeleteAll`s come last and without it; and in EVERY function of the session that touches the
+    lock, `output`, `sendQueue.Insert/DeleteMin/DeleteMinIf`, `sendBuf.Insert` run only with the lock
+    held, `Lock` is never called with the lock held, `closeWithError` / `Close` never with it (they
+    take it), and no function falls off its end holding it. -/
+theorem close_lock_scope :
+    (Gen.CloseFacts.lockScope.filter (fun x => x.1 == "Session.runOutputOnceStream")).map (fun x => x.2) =
+      [("time.Sleep", "free"), ("s.oLock.Lock", "free"),
+       ("s.sendQueue.DeleteMin", "held"), ("s.oLock.Unlock", "held"), ("s.output", "held"),
+       ("s.oLock.Unlock", "held"), ("s.closeWithError", "free"), ("<end>", "free")] ∧
+    (Gen.CloseFacts.lockScope.filter (fun x => x.1 == "Session.closeWithError")).map (fun x => x.2) =
+      [("s.oLock.Lock", "free"), ("s.sendQueue.Insert", "held"), ("s.oLock.Unlock", "held"),
+       ("s.oLock.Unlock", "held"), ("time.Sleep", "free"), ("s.lastSend.Load", "free"),
+       ("s.oLock.Unlock", "held"), ("s.oLock.Lock", "free"), ("s.output", "held"), ("s.oLock.Unlock", "held"),
+       ("s.sendQueue.DeleteAll", "free"), ("s.sendBuf.DeleteAll", "free"), ("<end>", "unreachable")] ∧
+    Gen.CloseFacts.lockScope.all (fun x =>
+      (if x.2.1 == "s.output" || x.2.1 == "s.sendQueue.Insert" || x.2.1 == "s.sendQueue.DeleteMin" ||
+          x.2.1 == "s.sendQueue.DeleteMinIf" || x.2.1 == "s.sendBuf.Insert" || x.2.1 == "s.oLock.Unlock"
+        then x.2.2 == "held" else true) &&
+      (if x.2.1 == "s.oLock.Lock" || x.2.1 == "s.closeWithError" || x.2.1 == "s.Close" then x.2.2 == "free" else true) &&
+      (if x.2.1 == "<end>" then x.2.2 == "free" || x.2.2 == "unreachable" else true)) = true ∧
+    (Gen.CloseFacts.lockScope.map (fun x => x.1)).eraseDups =
+      ["Session.Write", "Session.writeChunk", "Session.runOutputOnceStream", "Session.runOutputOncePacket",
+       "Session.inputData", "Session.inputClose", "Session.closeWithError"] := by decide
+
+/-- The constants and shapes the models and the finding keys rely on, regenerated from the source:
+    the bounded wait of `closeWithError` is `for i := 0; i < 1000; i++ { time.Sleep(time.Millisecond); if
+    s.lastSend.Load() >= …` (`CloseStream.closeWaitMs`; the model's `forceClose` / `waitExpire`);
+    `writeChunk` waits while `Remaining() <= nFragment`, i.e. keeps one slot free for the close request
+    (`WStep.write`'s guard, `tcp_writer_wire_order`'s second conjunct); `Read` answers `closedChan`
+    with a clean `io.EOF` and `inputErr` with `io.ErrUnexpectedEOF`; a packet session that has received
+    nothing for `idleSessionTimeout = time.Minute` (`Close.idleTimeoutMs`) is removed, and removing a
+    session or closing an underlay closes the session GRACEFULLY (`s.Close()`) — the model's
+    `localClose`. -/
+theorem close_wait_and_idle_constants :
+    Gen.CloseFacts.closeWaitLoops = [("i := 0", "i < 1000", "i++", ["time.Sleep", "s.lastSend.Load"])] ∧
+    Gen.CloseFacts.closeSleeps = ["time.Millisecond"] ∧ CloseStream.closeWaitMs = 1000 * 1 ∧
+    Gen.CloseFacts.writeReserve = ["s.sendQueue.Remaining() <= nFragment"] ∧
+    Gen.CloseFacts.readSelect = [("<-s.closedChan", "return 0, io.EOF"), ("<-s.inputErr", "return 0, io.ErrUnexpectedEOF"),
+      ("<-timeC", "return 0, stderror.ErrTimeout"), ("<-s.recvQueue.chanNotEmptyEvent", "")] ∧
+    Gen.CloseFacts.idleClose = [("idleSessionTimeout", "time.Minute"),
+      ("cleanSessions removes under", "select <-session.closedChan"),
+      ("cleanSessions removes under", "time.Now().UnixMicro()-session.lastRXTime.Load() > idleSessionTimeout.Microseconds()"),
+      ("baseUnderlay.Close calls", "s.Close"), ("baseUnderlay.RemoveSession calls", "s.Close")] ∧
+    Close.idleTimeoutMs = 60 * 1000 := by decide
 
 /-! ## Non-vacuity -/
 
